@@ -26,6 +26,21 @@ CHECKS = {
          "S1: all reachable (ESR, ESE, SRE, queue, self-test) states under *ESE/*SRE values covering every bit, *ESR?, *STB? with MAV both ways, *CLS, *OPC, *OPC?, *TST?, *RST, *WAI, a failing message per ESR class, SYST:ERR? and multi-unit combinations. S2: OPER and QUES summary bits against SRE and *STB?. S3: every value 0..255 plus out-of-range, rounded and mistyped values written to *ESE and *SRE and read back. Response, return value and every device register are compared after each message.",
          "Trusted: the reference model of the status byte (summary = event & enable per IEEE 488.2 11.4.3; MSS over all other bits incl. MAV; *CLS clears ESR, event registers and error queue), the binding table, stateright. Queue bound 1-2.",
          "DESIGN.md section 5 (C16)"),
+ "C02": ("model_checking",
+         "per-tree BFS over the reference resolver's header-level state graph; every (state, unit) transition replayed on the real Node::run (witness;unit) and compared; plus all 2-/3-unit messages and history runs",
+         "For every tree of a bounded family (all unambiguous trees up to N nodes over a name pool with suffixed siblings, default leaves/branches, anonymous default leaf, root-only common commands) the reachable header levels and every transition under an alphabet of absolute/relative/common headers in four spellings, event and query form, are enumerated; each transition is validated against the implementation by running the witness message and comparing the handler-invocation log (which handler, which form) and the return value (-113 without invocation). All 2-unit (and, thorough, 3-unit) messages are also run directly, and units are re-run after failing/deep earlier messages.",
+         "Trusted: the reference resolver (refmodel/resolver.rs, self-checked against the repo's tree_traversal.csv), the reference mnemonic matcher of C03, the tree-family generator. Trees larger than the bound, more than 3 children per branch and handlers with parameters are outside this check.",
+         "DESIGN.md section 5 (C02)"),
+ "C03": ("exploration",
+         "exhaustive enumeration of (definition, candidate) pairs against an independent three-valued matcher",
+         "Every definition of SCPI shape over {A,B}/{a,b} with suffixes {none,1,2,12,01,0} x every candidate string up to length 5/6 over {a,A,b,B,1,2,0,_}, plus 62 real SCPI mnemonics (incl. 12-character ones) x their edit/case/suffix neighbourhood, through mnemonic_match, Token::match_program_header and mnemonic_compare. Complete in the stated space; the matcher scans bytes uniformly so two letters per case class are representative.",
+         "Trusted: the 40-line reference matcher (self-checked on the repo's own test expectations). Suffixes with leading zeros are not judged (property does not pin them).",
+         "DESIGN.md section 5 (C03)"),
+ "C14": ("exploration",
+         "exhaustive enumeration of all 65536 error numbers against an independent class table, plus a table of library-raised faults",
+         "Every i16 value through Error::custom / ErrorCode::Custom and, where defined, the standard variant (code round trip, esr_mask, message); 63 faulty messages (syntax, header, arity, type -> command error; value -> execution error) run on the documented device checking error class and the ESR bit set.",
+         "Trusted: the class table in scpimodel::esr_bit_of (15 lines from IEEE 488.2 11.5.1 / SCPI-99 21.8.2); the fault table's classification of each message.",
+         "DESIGN.md section 5 (C14)"),
 }
 
 NOT_YET = "check not built yet (planned: DESIGN.md section 5 describes the bounded exhaustive exploration that will decide it)"
